@@ -441,6 +441,16 @@ func (P *Program) buildFieldStores() {
 
 func (P *Program) Desc(v ssa.Value) string { return P.desc(v, false) }
 
+// KeyDesc: descriptor used in the keys of guard literals. Calls of product helpers are NOT looked through here: the
+// key has to tell apart the results of different helpers (`v != nil` for v from two different finders would otherwise
+// both read `{new(T)|nil} != nil`); what a helper's result implies is added by Expand / inlineBoolHelper instead.
+func (P *Program) KeyDesc(v ssa.Value) string {
+	old := P.opaqueCalls
+	P.opaqueCalls = true
+	defer func() { P.opaqueCalls = old }()
+	return P.desc(v, false)
+}
+
 // DescDeep renders provenance through fields of module structs as well.
 func (P *Program) DescDeep(v ssa.Value) string { return P.desc(v, true) }
 
@@ -458,7 +468,7 @@ func (P *Program) desc(v ssa.Value, deep bool) string {
 		}
 		memo = P.ovMemo
 	}
-	k := descKey{v, deep}
+	k := descKey{v, deep, P.opaqueCalls}
 	if s, ok := memo[k]; ok {
 		return s
 	}
@@ -804,13 +814,13 @@ func (P *Program) LitKeyWith(l Lit, ov map[ssa.Value]string) string {
 func (P *Program) litKey(l Lit) string {
 	switch l.Kind {
 	case "eq":
-		a, b := P.Desc(l.X), P.Desc(l.Y)
+		a, b := P.KeyDesc(l.X), P.KeyDesc(l.Y)
 		if a > b {
 			a, b = b, a
 		}
 		return "eq(" + a + ", " + b + ")"
 	case "lt":
-		return "lt(" + P.Desc(l.X) + ", " + P.Desc(l.Y) + ")"
+		return "lt(" + P.KeyDesc(l.X) + ", " + P.KeyDesc(l.Y) + ")"
 	case "or", "and":
 		var keys []string
 		for _, s := range l.Subs {
@@ -826,10 +836,10 @@ func (P *Program) litKey(l Lit) string {
 	if l.Val != nil {
 		if l.Kind == "rangeloop" || l.Kind == "rangefunc" {
 			if b, ok := l.Val.(*ssa.BinOp); ok {
-				return "lt(" + P.Desc(b.X) + ", " + P.Desc(b.Y) + ")"
+				return "lt(" + P.KeyDesc(b.X) + ", " + P.KeyDesc(b.Y) + ")"
 			}
 		}
-		return P.Desc(l.Val)
+		return P.KeyDesc(l.Val)
 	}
 	return l.Key
 }
